@@ -890,9 +890,9 @@ func first(a, _ []byte) []byte { return a }
 //@   loop 1 (q)
 //@     invariant stackOK(q)
 //@   loop 2 (i)
-//@     invariant stackOK(q) && 0 - 1 <= i && i <= 3
+//@     invariant stackOK(q) && 0 - 1 <= i && i < n4.childrenLen
 //@   loop 3 (i)
-//@     invariant stackOK(q) && 0 - 1 <= i && i <= 15
+//@     invariant stackOK(q) && 0 - 1 <= i && i < n16.childrenLen
 //@   loop 4 (i)
 //@     invariant stackOK(q) && 0 - 1 <= i && i <= 255
 //@   loop 5 (i)
